@@ -290,7 +290,7 @@ def do_havoc(ex, st, names, roots, keep=()):
                 raise SpecError('loop mutates python-side structure %s: '
                                 'declare its type in locals' % r)
             ty = cur.ty
-        st.env[r] = fresh(ty, r.replace('.', '_'))
+        st.env[r] = ex.fresh_wf(st, ty, r.replace('.', '_'))
     for n in sorted(names):
         if n in keep or n in roots and not isinstance(st.env.get(n), Ref):
             if n in roots: continue
@@ -305,7 +305,7 @@ def do_havoc(ex, st, names, roots, keep=()):
             st.bound.pop(n, None)
             continue
         was_unbound = (cur is None) or (n in st.bound)
-        st.env[n] = fresh(ty, n)
+        st.env[n] = ex.fresh_wf(st, ty, n)
         if was_unbound:
             st.bound[n] = z3.Bool(C.fresh_name('bound_' + n))
         else:
@@ -375,6 +375,7 @@ def exec_while(ex, node, st):
     roots |= set(ex.spec.get('volatile', []))
     assume_invs(ex, h, ordinal, invs)
     rely(ex, h.fork(), h)
+    h.heads[ordinal] = dict(h.env)
     if not ex.feasible(h):
         ex.notes.append('loop %s: invariant unsatisfiable after havoc' % ordinal)
     exit_when = ex.spec.get('loop_exit', {}).get(ordinal)
@@ -590,11 +591,13 @@ def exec_for(ex, node, st):
     assume_invs(ex, h, ordinal, invs)
     if not ex.feasible(h):
         ex.notes.append('loop %s: invariant unsatisfiable after havoc' % ordinal)
+    h.heads[ordinal] = dict(h.env)
 
     for s, taken in ex.branch(h, i < n):
         if taken:
             mark = len(ex.exits)
             bind(s, i)
+            s.heads[ordinal] = dict(s.env)
             pend = ex.exits[mark:]; del ex.exits[mark:]
             for exc, es, line in pend:
                 outs.append(('raise', es, (exc, line)))
